@@ -501,6 +501,10 @@ def gen_pipeline(rng: Random, tag: str = "", n_items: tuple[int, int] = (1, 4), 
         dep["rule_conditions"] = [{"type": "processing_item_applied", "processing_item_id": first["id"]}]
         dep.pop("rule_cond_op", None)
         dep.pop("rule_cond_not", None)
+        if chance(rng, 0.5):
+            # the same dependency written as a named condition with a condition expression
+            dep["rule_conditions"] = {"applied": dep["rule_conditions"][0], "is_rule": {"type": "is_sigma_rule"}}
+            dep["rule_cond_expr"] = pick(rng, ["applied and is_rule", "is_rule and applied", "applied and (is_rule or applied)"])
         spec["transformations"].append(dep)
     if chance(rng, 0.2):
         # a field-name level item that depends on pipeline state which only some rules set: the answer for one
@@ -509,7 +513,12 @@ def gen_pipeline(rng: Random, tag: str = "", n_items: tuple[int, int] = (1, 4), 
                                         "rule_conditions": [{"type": "logsource", "product": pick(rng, PRODUCTS)}]})
         dep = ({"type": "field_name_prefix", "prefix": "st."} if chance(rng, 0.5)
                else {"type": "field_name_suffix", "suffix": ".st"})
-        dep["field_name_conditions"] = [{"type": "processing_state", "key": "fnstate", "val": "on"}]
+        if chance(rng, 0.5):
+            dep["field_name_conditions"] = [{"type": "processing_state", "key": "fnstate", "val": "on"}]
+        else:
+            # the same dependency at rule level, as a named condition with a condition expression
+            dep["rule_conditions"] = {"st": {"type": "processing_state", "key": "fnstate", "val": "on"}}
+            dep["rule_cond_expr"] = "st"
         spec["transformations"].append(dep)
     if chance(rng, post):
         spec["postprocessing"] = [gen_postprocessing(rng, tag + str(i)) for i in range(rng.randint(1, 2))]
